@@ -9,3 +9,4 @@ import DiplomatModel.Props.C08
 #print axioms DiplomatModel.Props.C08.option_layout
 #print axioms DiplomatModel.Props.C08.option_flag_offset
 #print axioms DiplomatModel.Props.C08.force_padding_iff
+#print axioms DiplomatModel.Props.C08.write_read_roundtrip
